@@ -33,13 +33,35 @@ SPEC = os.path.join(S.TLA, "SmoothLattice.tla")
 def script_for(ev):
     sc = S.Script()
     nv = ev["nv"]
-    sc.model(S.model_lines(ev))
+    slp = ev["slp"] if ev["level"] >= 2 else {"on": False}
+    if slp["on"]:
+        # sleeping enabled: the last tree starts asleep (policy init = 5), the other trees never sleep (3)
+        sc.model(S.model_lines(ev, enable=["sleep"], body_extra=lambda k, b: ("sleep=%d" % slp["pol"][k - 1]) if slp["pol"][k - 1] else ""))
+    else:
+        sc.model(S.model_lines(ev))
     sc.ok("data 0 0")
     S.sanity(sc, ev)
     if nv == 0:
         return sc
     sc.oks(S.state_lines(ev))
     sc.ok("forward 0")
+    if slp["on"]:
+        # inertia and its factorisation for ALL dofs, awake or asleep, after mj_forward and after further steps
+        Ms = S.flat(ev["M"])
+        sc.vec("asleep 0", "tree_asleep", slp["trees"], exact=True)
+        sc.vec("fullm 0", "fullM(sleeping tree)", Ms)
+        sc.vec("reconld 0", "qLD(L'DL)(sleeping tree)", Ms)
+        for d in range(nv):
+            e = [1.0 if k == d else 0.0 for k in range(nv)]
+            col = [ev["M"][r][d] for r in range(nv)]
+            sc.vec("mulm 0 %s" % S.csv(e), "mulM(e_i)(sleeping tree)", col)
+            sc.vec("solvem 0 %s" % S.csv(col), "solveM(M e_i)(sleeping tree)", e)
+        sc.vec("ldcheck 0", "factorisation identities(sleeping tree)", [0.0, 0.0, 0.0], scale=max(abs(x) for x in Ms))
+        sc.ok("step 0 3")
+        sc.ok("forward 0")
+        sc.vec("asleep 0", "tree_asleep(after steps)", slp["trees"], exact=True)
+        sc.vec("ldcheck 0", "factorisation identities(sleeping tree, after steps)", [0.0, 0.0, 0.0], scale=max(abs(x) for x in Ms))
+        return sc
     # totals including the spatial tendon's armature are published over L^2 (inertia, energy) and L^4 (forces)
     L = ev["spL"]
     d2 = Fraction(L * L if L > 0 else 1)
@@ -84,6 +106,8 @@ def script_for(ev):
 def sig_of(ev, label):
     if ev["xten"]:
         return "C06:tendon-armature-across-branches:M-coupling-dropped"
+    if "sleeping tree" in label or "tree_asleep" in label:
+        return "C06:%s" % label
     ten = "+tendon" if any(b["tc"] != 0 for b in ev["bodies"]) and ev["glob"]["tarm"] != 0 else ""
     return "C06:%s:joints=%s%s" % (label, "".join(sorted(set(S.features(ev)))), ten)
 
@@ -101,6 +125,7 @@ NEED = {
     "a spatial tendon whose Jacobian has an exact zero before a non-zero entry": lambda ev: ev["spL"] > 0 and not ev["xten"] and any(
         ev["spn"][i] == 0 and any(x != 0 for x in ev["spn"][i + 1:]) for i in range(ev["nv"])),
 }
+NEED["a sleeping tree with an off-diagonal inertia entry next to an awake tree"] = lambda ev: ev["slp"]["on"] and ev["slp"]["coupled"]
 NEED_THOROUGH = {
     "a spatial tendon with a velocity-dependent bias": lambda ev: ev["spL"] > 0 and not ev["xten"] and any(
         ev["biassp"][i] != ev["spL"] ** 4 * ev["bias"][i] for i in range(ev["nv"])),
@@ -119,9 +144,9 @@ def run(ctx):
                "configurations where its length is an integer <= 7; no passive forces in these lattices",
                "comparison tolerance 1e-9 relative to the largest entry of the compared vector / of the force vectors")
     if ctx.quick:
-        mcs, nsim, cov = ["SmoothLattice_C06MC.cfg"], 150, None
+        mcs, nsim, cov = ["SmoothLattice_C06MC.cfg", "SmoothLattice_C06Sleep.cfg"], 120, None
     else:
-        mcs, nsim, cov = ["SmoothLattice_C06MC.cfg", "SmoothLattice_C06Deep.cfg"], 1500, "SmoothLattice_Cov.cfg"
+        mcs, nsim, cov = ["SmoothLattice_C06MC.cfg", "SmoothLattice_C06Sleep.cfg", "SmoothLattice_C06Deep.cfg"], 1500, "SmoothLattice_Cov.cfg"
     allres = S.run_lattice(ctx, "C06", SPEC, mcs, "SmoothLattice_C06Sim.cfg", nsim, script_for, sig_of,
                            need=NEED if ctx.quick else dict(NEED, **NEED_THOROUGH), cov_cfg=cov,
                            neg_cfg=None if ctx.quick else ("SmoothLattice_C06Neg.cfg", "NegBiasVelocityFree"))
